@@ -189,6 +189,30 @@ def rule_order(ctx):
     ok = bool(ta) and "in_service" in norm(ta[0].value) and isinstance(ta[0].value, ast.BinOp) and isinstance(ta[0].value.op, ast.BitAnd)
     ctx.ob(R, f"{RC}::get_controller_order::only-in-service", ok,
            "only in-service controllers of the level are selected" if ok else "the level selection no longer depends on controller.in_service", fi.loc(ta[0]) if ta else fi.loc())
+    # levels are floats on purpose ("so that a new level can be added in between"): no integer coercion on the way
+    lv = [n for n in ast.walk(fi.node) if isinstance(n, ast.Assign) and any(isinstance(t, ast.Name) and t.id in ("level", "level_list") for t in n.targets)]
+    bad = None
+    for a_ in lv:
+        for n in ast.walk(a_.value):
+            if (isinstance(n, ast.Name) and n.id in ("int", "round")) or (isinstance(n, ast.Attribute) and n.attr in ("int64", "int32", "int_", "intp", "floor", "ceil", "rint", "trunc")) \
+                    or (isinstance(n, ast.Constant) and n.value in ("int", "int64", "int32")):
+                bad = a_
+    ctx.ob(R, f"{RC}::get_controller_order::levels-not-truncated", bad is None,
+           "levels keep their (float) values" if bad is None else
+           f"`{norm(bad, 80)}` coerces levels to integers: fractional levels collapse onto their neighbours and run in the wrong order", fi.loc(bad) if bad else fi.loc())
+    # every controller is asked whether it needs an initial run
+    fc = ctx.repo.func(f"{RC}:check_for_initial_run")
+    inner = [n for n in ast.walk(fc.node) if isinstance(n, ast.For) and "levelorder" in names_in(n.iter) and isinstance(n.target, ast.Tuple)]
+    ok = False
+    if inner:
+        for st in inner[0].body:
+            if isinstance(st, ast.If) and "initial_run" in norm(st.test) and "ctrl.index" in norm(st.test) and \
+                    any(isinstance(x, ast.Return) and isinstance(x.value, ast.Constant) and x.value.value is True for x in st.body):
+                ok = True
+    ctx.ob(R, f"{RC}::check_for_initial_run::per-controller", ok,
+           "the initial_run flag of every controller is examined" if ok else
+           "the initial_run test is not inside the loop over the controllers of a level: only the last controller of a level decides "
+           "whether an initial power flow is made", fc.loc())
     # callers iterate in order
     for fn, it in (("control_implementation", "controller_order"), ("_control_step", "levelorder"), ("control_initialization", "controller_order"),
                    ("control_finalization", "controller_order")):
@@ -709,7 +733,7 @@ def run(ctx):
     rule_tap_discrete(ctx)
     rule_tap_continuous(ctx)
     rule_tap_param(ctx)
-    ctx.require_min("ORDER", 8)
+    ctx.require_min("ORDER", 10)
     ctx.require_min("LOOP", 14)
     ctx.require_min("TAP-DISCRETE", 18)
     ctx.require_min("TAP-CONTINUOUS", 8)
@@ -723,6 +747,8 @@ def variants(repo):
     ct = "pandapower/control/controller/trafo/ContinuousTapControl.py"
     tc = "pandapower/control/controller/trafo_control.py"
     return [
+        V("levels truncated to integers", rc, replace_once("level = controller.level.apply(asarray).values", "level = controller.level.apply(asarray, dtype=np.int64).values"), "levels-not-truncated"),
+        V("initial run asked of the last controller only", rc, in_function("check_for_initial_run", replace_once("            if net.controller.at[ctrl.index, 'initial_run']:\n                return True", "        if net.controller.at[ctrl.index, 'initial_run']:\n            return True")), "check_for_initial_run::per-controller"),
         V("levels descending", rc, replace_once("level_list = sorted(set(np.concatenate(level)))", "level_list = sorted(set(np.concatenate(level)), reverse=True)"), "levels-ascending"),
         V("order descending", rc, replace_once("rel_controller[order.argsort()], nets[to_add][order.argsort()]", "rel_controller[order.argsort()[::-1]], nets[to_add][order.argsort()[::-1]]"), "order-ascending"),
         V("nets not permuted", rc, replace_once("nets[to_add][order.argsort()]", "nets[to_add]"), "order-ascending-same-permutation"),
